@@ -6,6 +6,7 @@ package main
 
 import (
 	"fmt"
+	"strings"
 
 	"golang.org/x/tools/go/ssa"
 )
@@ -118,4 +119,85 @@ func (R *Run) ruleRequesterRoot() {
 		R.check(good && pref && len(got) == 2, "requester-root", "hotline.ClientConn.FileRoot", P.pos(fn.Pos()), "account root if set, else server root", fmt.Sprintf("FileRoot() does not return the account's own root when set and the server's otherwise (returns %v)", got))
 	}
 	R.floor("requester-root", 14)
+}
+
+// ruleStorePassthrough: the path classification treats FileStore.X(path, …) as the filesystem call os.X(path, …).
+// That is only right while the one real implementation hands every path string through unchanged: each method of
+// OSFileStore is exactly one call of the os function of the same name with its own parameters, in order.
+func (R *Run) ruleStorePassthrough() {
+	P := R.P
+	R.rule("store-passthrough", "every method of hotline.OSFileStore consists of one call os.<same name>(its parameters, unchanged and in order) whose results it returns: a path that was classified SAFE at the FileStore call is the path the operating system sees (no re-rooting, relativising or rewriting inside the store)")
+	n := 0
+	for _, fn := range P.Funcs {
+		if fn.Signature.Recv() == nil || fn.Parent() != nil || typeName(derefType(fn.Params[0].Type())) != "hotline.OSFileStore" {
+			continue
+		}
+		n++
+		R.analysed(fname(fn))
+		var why []string
+		var osCall *ssa.Call
+		nCalls := 0
+		for _, ci := range callsIn(fn) {
+			nCalls++
+			if c, ok := ci.(*ssa.Call); ok && calleeName(&c.Call) == "os."+fn.Name() {
+				osCall = c
+			}
+		}
+		switch {
+		case osCall == nil:
+			why = append(why, "no call of os."+fn.Name())
+		case nCalls != 1:
+			why = append(why, fmt.Sprintf("%d calls instead of the single os.%s", nCalls, fn.Name()))
+		default:
+			if len(osCall.Call.Args) != len(fn.Params)-1 {
+				why = append(why, "argument count differs")
+			} else {
+				for i, a := range osCall.Call.Args {
+					if a != ssa.Value(fn.Params[i+1]) {
+						why = append(why, fmt.Sprintf("argument %d is %s, not the method's own parameter %s", i+1, P.sym(a), fn.Params[i+1].Name()))
+					}
+				}
+			}
+			if len(fn.Blocks) != 1 {
+				why = append(why, "more than one basic block")
+			}
+		}
+		R.check(len(why) == 0, "store-passthrough", fname(fn), P.pos(fn.Pos()), "= os."+fn.Name()+"(params…)", "the file store does not hand its arguments to the operating system unchanged: "+fmt.Sprint(why)+" — paths judged safe by the classification are not the paths that are used")
+	}
+	R.floor("store-passthrough", 8)
+}
+
+// ruleAccountPathShape: every filesystem path built from the accounts directory has the closed form
+// Join(accountDir, Join("/", login)+".yaml") / Join(accountDir, Join("/", login+".yaml")) (optionally + a constant
+// temp suffix): the extension is part of the anchored component, so the result is a file INSIDE the directory for
+// every login — also for logins that clean to "/" ("..", ".", "x/.."), where a suffix appended after the outer Join
+// would name a sibling of the accounts directory.
+func (R *Run) ruleAccountPathShape() {
+	P := R.P
+	R.rule("account-path-shape", "every path argument derived from YAMLAccountManager.accountDir is Join(accountDir, <anchored login>.yaml) with the extension inside the anchored component (or the constant glob pattern of the loader): no login can make it name something outside the accounts directory")
+	n := 0
+	for _, fn := range P.Funcs {
+		if fn.Pkg == nil || fn.Pkg.Pkg.Path() != mobPath {
+			continue
+		}
+		for _, ci := range callsIn(fn) {
+			c := ci.Common()
+			for _, i := range pathArgs(c) {
+				s := stripRecv(P.sym(c.Args[i]))
+				if !strings.Contains(s, "mobius.YAMLAccountManager.accountDir") {
+					continue
+				}
+				n++
+				construct := fmt.Sprintf("%s: %s #%d arg %d", fname(fn), sed(calleeName(c)), nCreateIn(fn, ci), i)
+				R.analysed(fname(fn))
+				if strings.Contains(s, `"*.yaml"`) && !strings.Contains(s, "param:") {
+					R.ok("account-path-shape", construct, P.ipos(ci), "constant glob pattern")
+					continue
+				}
+				_, anchored := P.fileLogin(c.Args[i])
+				R.check(anchored, "account-path-shape", construct, P.ipos(ci), "Join(accountDir, anchored login + \".yaml\")", "the account file path "+s+" is not of the form Join(accountDir, Join(\"/\", login)+\".yaml\"): for a login that cleans to \"/\" it names a file outside the accounts directory")
+			}
+		}
+	}
+	R.floor("account-path-shape", 6)
 }
